@@ -292,6 +292,39 @@ fn evaluate(c: &Case) -> Outcome {
         Ok(Ok(p)) => p,
     };
 
+    // 4a. BLP0 keeps its mip levels in external files: the header says how many there are. Levels
+    //     beyond the chain that happen to be available (stale `.bNN` files of an earlier, larger
+    //     texture saved under the same name) must not change the result, and a level the header
+    //     calls for but that is not available must not be skipped silently.
+    if let Some(ext) = externals.as_ref() {
+        let junk: Vec<u8> = ext.last().cloned().unwrap_or_else(|| vec![0xFF, 0xD8, 0xFF, 0xD9]);
+        match guard("parse_blp_with_externals(surplus levels)", || {
+            parse_blp_with_externals(&bytes, |i| Ok(Some(ext.get(i).map(|v| v.as_slice()).unwrap_or(junk.as_slice()))))
+        }) {
+            Ok(Ok(p2)) if p2 == parsed => {}
+            Ok(Ok(p2)) => fails.push(Fail::new(
+                "blp0-surplus-external-levels-change-the-result",
+                format!("{tname} {}x{} mips={}: with more external level files available than the header calls for the parser returns {} levels instead of {}", c.w, c.h, c.mips, p2.image_count(), parsed.image_count()),
+            )),
+            Ok(Err(e)) => fails.push(Fail::new(
+                "blp0-surplus-external-levels-change-the-result",
+                format!("{tname} {}x{} mips={}: with surplus external level files available the parser fails: {e}", c.w, c.h, c.mips),
+            )),
+            Err(f) => fails.push(f),
+        }
+        if ext.len() >= 2 {
+            let cut = ext.len() - 1;
+            if let Ok(Ok(p3)) = guard("parse_blp_with_externals(last level missing)", || {
+                parse_blp_with_externals(&bytes, |i| Ok(if i < cut { ext.get(i).map(|v| v.as_slice()) } else { None }))
+            }) {
+                fails.push(Fail::new(
+                    "blp0-missing-external-level-skipped-silently",
+                    format!("{tname} {}x{} mips={}: the last of {} external levels is not available, yet the parser returns Ok with {} levels", c.w, c.h, c.mips, ext.len(), p3.image_count()),
+                ));
+            }
+        }
+    }
+
     // 4b. the public chain arithmetic of the parsed header agrees with the demanded chain
     {
         let chain = blpcheck::expected_chain(c.w, c.h, c.mips);
